@@ -12,7 +12,13 @@ PROP = dict(
         "(op `itv`) / invert_involutive (op `inv`); derived meshes (copy/deep/map) are specified directly from the "
         "face set; the `fresh` kinds compare the REAL mesh returned (or handed out mid-edit) by an in-place editor "
         "with a real mesh freshly built from the same faces - the answer `same-as-fresh` is what query_eq_fresh "
-        "demands of every reachable mesh"
+        "demands of every reachable mesh; kind `mesho` (programs over three mesh variables with derived meshes): "
+        "M3d.C09.derived_meshes_are_new_objects + handles_answer_as_fresh (the driver runs the VALUE semantics, which "
+        "is what the program over *Mesh objects computes when every derived mesh is a new object; every handle answers "
+        "from the faces of its own mesh) / derive_builds_exact_faces (what `dv` installs behind the handle) / "
+        "derived_same_connectivity (the faces found in a derived mesh must carry the mapped values) / bounds_eq_fresh "
+        "(ops `min`, `max`: Mesh.Min()/Max() = componentwise bounds over the corners of the current faces, "
+        "whatever the map order)"
     ),
     rule=(
         "operation histories (1-40 ops) on real CoordToSlice/CoordToNumber/CoordMap/EdgeMap/EdgeToSlice (3D, 2D) and on "
@@ -27,6 +33,15 @@ PROP = dict(
         "queries the mesh under edit), FlattenBase, Repair, FlipDelaunay, MarchingCubesSearch, Subdivider (in place), "
         "Decimate, EliminateCoplanar, DualContouring repair, each followed by a further Add/Remove history on the "
         "result; 2-D twin over Subdivide/Decimate/EliminateColinear/Repair/RepairNormals/Smooth/Blur/Invert(Normals); "
+        "kind mesho (3-D and 2-D, one generic body): programs of 6-31 instructions over three mesh variables - "
+        "Add/Remove/AddMesh and Contains/Num/faces/Find/Neighbors/VertexSlice/Min/Max through any handle, and "
+        "vars[dst] = vars[src].Copy|DeepCopy|InvertNormals|MapCoords(identity, axis-flattening = vertex-merging, axis swap)|"
+        "Translate|Center|Scale(1,2,-1,1/2)|Transform(&Translate, JoinedTransform{})|Rotate(0); offsets drawn on purpose: "
+        "exactly zero with random signed zeros, i*step for i in {0,1,2} (stacking loop), lattice vectors, Center() of "
+        "meshes on the symmetric lattice {-1,0,1}^d (often already centred); the two handles of the latest derivation "
+        "are preferred afterwards, so a mutation of one followed by a query of the other occurs in nearly every program; "
+        "dynamic key pool (real hash and exact coordinates of every key in the op line), face table grown from the "
+        "pointers found in each result; "
         "distinct = distinct operation lines"
     ),
     trusted=[
@@ -34,6 +49,7 @@ PROP = dict(
         "the hypothesis 'hash is a function of the key as compared by ==' is evaluated on the real fastHash64 for every key of the pool (signed zeros) on every run",
         "iteration callbacks are modelled as scripts (the Add/Remove calls of the k-th invocation); Go's map iteration order is an oracle parameter: for Iterate/IterateVertices the observed visit sequence is passed to the model, which accepts it iff a snapshot order explains it (iterate_oracle_explains)",
         "fresh-oracle kinds compare real mesh against real freshly built mesh inside the harness (NewMeshTriangles/NewMeshSegments + the same query code on a mesh without history is the trusted reference); an editor that panics or exceeds 6 s on a degenerate input, or returns NaN coordinates, makes that case inapplicable (counted in the distribution)",
+        "kind mesho: the coordinate map of Translate/Scale/Center/Transform on the vertex keys is computed by the harness with the library's own Coord.Add/Scale/Mid on one representative per key and handed to the model (the arithmetic of the map is not C09's subject; the maps used respect ==); of a derived mesh only the VALUES of its faces and its independence as an object are demanded (a result sharing face pointers with its source would not be reported, except for Copy where sharing is documented)",
     ],
     assumptions=["NaN coordinates are excluded (Go maps never find them either)"],
     level_text=(
@@ -46,10 +62,16 @@ PROP = dict(
         "none twice, none that was added. The models are tied to /repo by replaying random histories (real colliding "
         "and signed-zero keys, scripted callbacks) on the real maps and meshes and diffing against the model, and by "
         "the fresh oracle on the outputs and intermediate states of the library's in-place editors, including inputs "
-        "where an edit's result coincides with an existing vertex."
+        "where an edit's result coincides with an existing vertex. Programs over several mesh variables: for every "
+        "program of Add/Remove/AddMesh/queries/derivations (Copy, DeepCopy, MapCoords, Transform, Scale, Translate, Center, "
+        "Rotate, InvertNormals = a new object built by NewMesh+Add) the object heap gives behind every handle exactly the "
+        "mesh of the value semantics, so every handle answers from the faces put into its own mesh; a derived mesh has the "
+        "mapped faces with the same vertex/edge/face incidences; Min()/Max() are order-independent componentwise bounds "
+        "attained at corners. Tied by replaying such programs on real 3-D and 2-D meshes, with zero offsets (signed zeros, "
+        "first iteration of a stacking loop, Center() of a centred mesh), identity maps and vertex-merging maps drawn on purpose."
     ),
     level_note=(
-        "Proved about the models in lean/M3d/Model/FastMap.lean, Mesh.lean, MeshIter.lean. The in-place editors "
+        "Proved about the models in lean/M3d/Model/FastMap.lean, Mesh.lean, MeshIter.lean, MeshObj.lean, MeshBounds.lean. The in-place editors "
         "themselves (eliminateSegment, flattenCoord, mcSearch, mapInPlace, Subdivider) are NOT modelled: their index "
         "maintenance is checked per generated input against a freshly built real mesh, not proved for all inputs. "
         "Trusted: Lean kernel, propext/Classical.choice/Quot.sound, the Go harness and driver, Go maps ~ association lists."
